@@ -47,6 +47,11 @@ class SymNum(object):
     def __deepcopy__(self, memo):
         return self
 
+    def __symstr__(self):
+        # rendering a symbolic number (shortest repr of a float) is libc/numpy code: such paths
+        # are counted as outside the bound rather than modelled
+        raise core.OutOfBound("str() of a number parsed from symbolic text")
+
     __hash__ = None
 
     def __eq__(self, o):
